@@ -8,7 +8,9 @@
 (* Every other record {c, h, ok, orig, fresh}:                             *)
 (*   h      the definition history (operations of ShellState)              *)
 (*   orig   the state observed after running h in a shell started in the   *)
-(*          base state (ok: the snapshot was taken and the run completed)  *)
+(*          base state (ok: the snapshot was taken and the run completed); *)
+(*          its variables are the visible ones: if h enters a function,    *)
+(*          the snapshot and the printers are commands of its body         *)
 (*   fresh  observations {kind, mode, ok, vars, al, fn, opts, traps, mask}, *)
 (*          one per printer (kind) and way of evaluating (mode):           *)
 (*          the state of a FRESH shell (started in the base state) after   *)
@@ -33,7 +35,8 @@ vars == <<l>>
 
 SetOf(seq) == {seq[i] : i \in DOMAIN seq}
 StateOf(o) == [vars |-> SetOf(o.vars), al |-> SetOf(o.al), fn |-> SetOf(o.fn),
-               opts |-> SetOf(o.opts), traps |-> SetOf(o.traps), mask |-> o.mask]
+               opts |-> SetOf(o.opts), traps |-> SetOf(o.traps), mask |-> o.mask,
+               infn |-> FALSE, loc |-> {}]   \* an observation is a set of visible variables
 
 BaseState == StateOf(Rec[1].base)
 BaseObs(kind, mode) == CHOOSE o \in SetOf(Rec[1].fresh) : o.kind = kind /\ o.mode = mode
@@ -43,7 +46,7 @@ Names(S) == {e.n : e \in S}
 ModelWhy(r, pred) ==
   LET o == StateOf(r.orig) IN
   IF ~r.ok THEN "model:run"
-  ELSE IF o.vars # pred.vars THEN "model:vars"
+  ELSE IF o.vars # Vis(pred) THEN "model:vars"
   ELSE IF o.al # pred.al THEN "model:al"
   ELSE IF Names(o.fn) # Names(pred.fn) THEN "model:fn"
   ELSE IF o.opts # pred.opts THEN "model:opts"
@@ -57,13 +60,25 @@ ObsFor(r, kind, mode) ==
   THEN CHOOSE o \in SetOf(r.fresh) : o.kind = kind /\ o.mode = mode
   ELSE BaseObs(kind, mode)
 
+(* What the fresh shell must show for the printer.  Every printer but one  *)
+(* lists a part of the state that the fresh shell has too (all variables   *)
+(* with an attribute, all aliases, ...), so the projections must be equal. *)
+(* `typeset -p` inside a function lists the local variables only: the      *)
+(* fresh shell, which evaluates the printout outside any function, must    *)
+(* then have its own variables overridden by exactly the listed ones, i.e. *)
+(* be the abstract evaluation of the abstract listing.                     *)
+Expected(kind, pred) ==
+  IF kind = "typeset" /\ pred.infn
+  THEN Proj(kind, Eval(BaseState, Listing(kind, pred)))
+  ELSE Proj(kind, pred)
+
 ObsOK(r, pred, kind, mode) ==
   LET o == ObsFor(r, kind, mode)
       s == StateOf(o) IN
   /\ o.ok
   /\ IF kind = "functions"
      THEN Names(s.fn) = Names(pred.fn) /\ (r.ok => s.fn = SetOf(r.orig.fn))
-     ELSE Proj(kind, s) = Proj(kind, pred)
+     ELSE Proj(kind, s) = Expected(kind, pred)
 
 Judge(i) ==
   LET r == Rec[i] IN
